@@ -532,6 +532,31 @@ def backlog(rng, i):
     return {"kind": "backlog", "cfg": {"write_cycle": cycle}, "steps": steps}
 
 
+def pubflags(rng, i):
+    """Runs of publishes on one channel to the SAME exchange and routing key whose mandatory /
+    immediate flags change from one publish to the next (and repeat)."""
+    steps, ids = opens(2, [1, 2])
+    pid = 100 * i
+    for h in ("A", "B"):
+        x, rk = rng.choice([("", "q1"), ("amq.topic", "a.b"), ("ex", "")])
+        m, im = rng.random() < 0.5, rng.random() < 0.5
+        for _ in range(rng.randrange(4, 9)):
+            pid += 1
+            steps.append(op(h, "publish", x=x, rk=rk, len=rng.choice([0, 3, 50]), pid=pid, mandatory=m, immediate=im))
+            r = rng.random()
+            if r < 0.4:
+                im = not im
+            elif r < 0.65:
+                m = not m
+            elif r < 0.75:
+                m, im = not m, not im
+            # else: exact repeat
+    steps.append(op("A", "qos"))
+    steps.append(op("B", "qos"))
+    steps.append({"do": "closeconn"})
+    return {"kind": "pubflags", "cfg": {}, "steps": steps}
+
+
 def hb_silence(rng, i):
     """Heartbeats negotiated (1 s); the server goes silent while a call is in flight and a consumer
     waits: everybody must be released by MissedServerHeartbeats within ~2 s."""
@@ -686,7 +711,7 @@ def batches(rng, maxlen, bases, reps=1):
     return res
 
 
-FAMILIES = {"backlog": backlog, "hb_silence": hb_silence, "listener_cross": listener_cross, "close_slow": close_slow, "consumer_drop": consumer_drop, "rpc": rpc, "content": content, "consumer": consumer, "listeners": listeners,
+FAMILIES = {"pubflags": pubflags, "backlog": backlog, "hb_silence": hb_silence, "listener_cross": listener_cross, "close_slow": close_slow, "consumer_drop": consumer_drop, "rpc": rpc, "content": content, "consumer": consumer, "listeners": listeners,
             "connclose": connclose, "chanclose": chanclose}
 
 
